@@ -1,21 +1,23 @@
-"""Random project generator (structured, mostly valid). Every choice comes from the rng passed in."""
+"""Random project generator (structured, mostly valid). Every choice comes from the rng passed in.
+focus: None | 'conflicts' | 'env' | 'build' | 'layout' biases the feature mix."""
 
-VARS = ["CFLAGS", "LIBS", "X", "Y", "notify", "OPT"]
+VARS = ["CFLAGS", "X", "LIBS", "Y", "notify", "OPT"]
 FEATURES = ["f0", "f1", "f2"]
 
 def pick(rng, p): return rng.random() < p
 
-def rand_value(rng, deep=True):
+def rand_value(rng):
     atoms = ["-O2", "v1", "v2", "é", "a b", "", "${OPT}", "${builder}", "${app}", "\\${lit}", "${relpath}",
-             "$(1+2)", "${nosuch}", "x${OPT}y", "-I${relpath}/inc", "-O2", "v3", "w w", "${Y}"]
+             "$(1+2)", "${nosuch}", "x${OPT}y", "-I${relpath}/inc", "-O2", "v3", "w w", "${Y}", "${srcdir}/i", "${root}/r"]
     if pick(rng, 0.55):
         return rng.choice(atoms)
     return [rng.choice(atoms) for _ in range(rng.randint(0, 3))]
 
-def rand_env(rng, p=0.5, nmax=3, pool=VARS):
+def rand_env(rng, p=0.5, nmax=3, pool=None):
+    pool = pool or VARS
     if not pick(rng, p): return None
     e = {}
-    for v in rng.sample(pool, rng.randint(1, nmax)):
+    for v in rng.sample(pool, rng.randint(1, min(nmax, len(pool)))):
         val = rand_value(rng)
         if v == "notify" and isinstance(val, str):
             val = [val]          # a single-valued `notify` export is a separate (malformed) class
@@ -35,6 +37,12 @@ def base_rules(rng):
         rules[0]["export"] = ["X", {"EXP": "${OPT}"}]
     if pick(rng, 0.1):
         rules.append({"name": "POST_LINK", "in": "elf", "out": "bin", "cmd": "objcopy ${in} ${out}"})
+    if pick(rng, 0.1):
+        rules[0]["pool"] = "console"
+    if pick(rng, 0.1):
+        rules[1]["rspfile"] = "${out}.rsp"; rules[1]["rspfile_content"] = "${in}"
+    if pick(rng, 0.1):
+        rules[0]["description"] = "CC ${out}"
     return rules
 
 def dep_list(rng, names, nmax=3, p_opt=0.4, p_if=0.2):
@@ -43,18 +51,74 @@ def dep_list(rng, names, nmax=3, p_opt=0.4, p_if=0.2):
         n = rng.choice(names)
         r = rng.random()
         if r < p_if:
-            cond = rng.choice(names)
-            tgt = rng.choice(names)
-            out.append({cond: [("?" if pick(rng, 0.3) else "") + tgt]})
+            out.append({rng.choice(names): [("?" if pick(rng, 0.3) else "") + rng.choice(names)]})
         elif r < p_if + p_opt:
             out.append("?" + n)
         else:
             out.append(n)
     return out
 
-def gen_project(rng, size="small", features=("resolver", "env", "gen"), focus=None):
-    pc = 0.3 if focus == "conflicts" else 0.08      # conflicts per module
-    pu = 0.3 if focus == "conflicts" else 0.1       # provides_unique per module
+def rand_task(rng, names):
+    t = {"cmd": [rng.choice(["echo ${app} ${builder}", "run ${out}", "echo \\${lit} $$X", "flash ${X}"])]}
+    if pick(rng, 0.3): t["required_vars"] = [rng.choice(["X", "CFLAGS", "NOPE"])]
+    if pick(rng, 0.3): t["required_modules"] = [rng.choice(names)]
+    if pick(rng, 0.2): t["build"] = False
+    if pick(rng, 0.2): t["export"] = ["X"]
+    return t
+
+def gen_module(rng, n, names, ctx_choice, penv, pc, pu, focus):
+    m = {"name": n}
+    if ctx_choice is not None: m["context"] = ctx_choice
+    for key, p in (("selects", 0.5), ("depends", 0.5)):
+        if pick(rng, p):
+            dl = dep_list(rng, names)
+            if dl: m[key] = dl
+    if pick(rng, 0.3): m["uses"] = [("?" if pick(rng, 0.2) else "") + rng.choice(names) for _ in range(rng.randint(1, 2))]
+    if pick(rng, 0.4): m["provides"] = rng.sample(FEATURES, rng.randint(1, 2))
+    if pick(rng, pu): m["provides_unique"] = [rng.choice(FEATURES)]
+    if pick(rng, pc): m["conflicts"] = [rng.choice(FEATURES if pick(rng, 0.6) else names)]
+    pbuild = 0.35 if focus == "build" else 0.08
+    if pick(rng, pbuild):
+        m["build"] = {"cmd": ["gen ${X} > ${out}"] + (["touch ${relpath}/stamp"] if pick(rng, 0.3) else []),
+                      **({"out": [n + "_gen.h"] + ([n + "_gen2.h"] if pick(rng, 0.3) else [])} if pick(rng, 0.85) else {})}
+        if pick(rng, 0.7): m["is_build_dep"] = True
+        if pick(rng, 0.5): m["sources"] = [n + ".tmpl"]
+    else:
+        if pick(rng, 0.8):
+            srcs = [n + ".c"] + (["x%d.c" % rng.randint(0, 2)] if pick(rng, 0.3) else []) + ([n + ".S"] if pick(rng, 0.1) else [])
+            if pick(rng, 0.25): srcs.append({rng.choice(names): ["opt_" + n + ".c"]})
+            m["sources"] = srcs
+        if pick(rng, 0.03 if focus != "build" else 0.08): m["is_global_build_dep"] = True
+    env = {}
+    for scope in ("local", "export", "global"):
+        e = rand_env(rng, penv, pool=VARS)
+        if e: env[scope] = e
+    if env: m["env"] = env
+    if pick(rng, 0.05): m["notify_all"] = True
+    if pick(rng, 0.04): m["srcdir"] = rng.choice(["alt", "${relpath}/alt"])
+    if pick(rng, 0.06): m["tasks"] = {rng.choice(["t1", "t2"]): rand_task(rng, names)}
+    return m
+
+def gen_defaults(rng, names, penv):
+    d = {}
+    if pick(rng, 0.5):
+        dl = dep_list(rng, names, nmax=2)
+        if dl: d[rng.choice(["selects", "depends"])] = dl
+    if pick(rng, 0.3): d["sources"] = ["common.c"] + ([{rng.choice(names): ["common_opt.c"]}] if pick(rng, 0.5) else [])
+    if pick(rng, 0.3): d["uses"] = [rng.choice(names)]
+    e = rand_env(rng, 0.5, pool=VARS)
+    if e: d["env"] = {rng.choice(["local", "export", "global"]): e}
+    if pick(rng, 0.15): d["provides"] = [rng.choice(FEATURES)]
+    if pick(rng, 0.1): d["conflicts"] = [rng.choice(names)]
+    return d
+
+def gen_project(rng, size="small", features=None, focus=None):
+    global VARS
+    VARS = ["CFLAGS", "X", "LIBS"] + (["Y", "notify", "OPT"] if focus != "env" else [])
+    penv = 0.6 if focus == "env" else 0.3
+    pc = 0.3 if focus == "conflicts" else 0.08
+    pu = 0.3 if focus == "conflicts" else 0.1
+    layout = focus == "layout" or pick(rng, 0.25)
     nctx = rng.randint(0, 3 if size == "small" else 4)
     ctx_names = ["c%d" % i for i in range(nctx)]
     contexts = [{"name": "default", "rules": base_rules(rng),
@@ -64,14 +128,14 @@ def gen_project(rng, size="small", features=("resolver", "env", "gen"), focus=No
         e = rand_env(rng, 0.5)
         if e: c["env"] = e
         if pick(rng, 0.2):
-            c["rules"] = [{"name": "CC", "in": "c", "out": "o", "cmd": "cc-" + n + " ${CFLAGS} -c ${in} -o ${out}",
-                           **({"always": True} if pick(rng, 0.0) else {})}]
+            c["rules"] = [{"name": "CC", "in": "c", "out": "o", "cmd": "cc-" + n + " ${CFLAGS} -c ${in} -o ${out}"}]
+        if pick(rng, 0.1):
+            c["var_options"] = {rng.choice(["CFLAGS", "LIBS"]): {"prefix": "-q"}}
         contexts.append(c)
     nb = rng.randint(1, 3)
     builders = []
     for i in range(nb):
-        bname = "b%d" % i
-        bd = {"name": bname, "parent": rng.choice(["default"] + ctx_names)}
+        bd = {"name": "b%d" % i, "parent": rng.choice(["default"] + ctx_names)}
         e = rand_env(rng, 0.4)
         if e: bd["env"] = e
         if pick(rng, 0.25):
@@ -86,35 +150,19 @@ def gen_project(rng, size="small", features=("resolver", "env", "gen"), focus=No
         if pick(rng, 0.08): c["disables"] = [rng.choice(names)]
         if pick(rng, 0.1): c["provides"] = [rng.choice(FEATURES)]
         if pick(rng, 0.07): c["provides_unique"] = [rng.choice(FEATURES)]
-    modules = []
+        if pick(rng, 0.08): c["tasks"] = {rng.choice(["t1", "t3"]): rand_task(rng, names)}
     ctx_all_names = ["default"] + ctx_names + [b["name"] for b in builders]
+    modules = []
     for n in mod_names:
         ndef = 2 if pick(rng, 0.2) else 1
         where = ["default"] if pick(rng, 0.65) else []
         for c in rng.sample(ctx_all_names, len(ctx_all_names)):
             if len(where) < ndef and c not in where: where.append(c)
+        if len(where) == 2 and pick(rng, 0.3):
+            modules.append(gen_module(rng, n, names, list(where), penv, pc, pu, focus))     # context list
+            continue
         for ctxn in where:
-            m = {"name": n}
-            if ctxn != "default" or pick(rng, 0.3): m["context"] = ctxn
-            for key, p in (("selects", 0.5), ("depends", 0.5)):
-                if pick(rng, p):
-                    dl = dep_list(rng, names)
-                    if dl: m[key] = dl
-            if pick(rng, 0.3): m["uses"] = [rng.choice(names) for _ in range(rng.randint(1, 2))]
-            if pick(rng, 0.4): m["provides"] = rng.sample(FEATURES, rng.randint(1, 2))
-            if pick(rng, pu): m["provides_unique"] = [rng.choice(FEATURES)]
-            if pick(rng, pc): m["conflicts"] = [rng.choice(FEATURES if pick(rng, 0.6) else names)]
-            if pick(rng, 0.8):
-                srcs = [n + ".c"] + (["x%d.c" % rng.randint(0, 2)] if pick(rng, 0.3) else []) + ([n + ".S"] if pick(rng, 0.1) else [])
-                if pick(rng, 0.2): srcs.append({rng.choice(names): ["opt_" + n + ".c"]})
-                m["sources"] = srcs
-            env = {}
-            for scope in ("local", "export", "global"):
-                e = rand_env(rng, 0.3)
-                if e: env[scope] = e
-            if env: m["env"] = env
-            if pick(rng, 0.05): m["notify_all"] = True
-            modules.append(m)
+            modules.append(gen_module(rng, n, names, (ctxn if ctxn != "default" or pick(rng, 0.3) else None), penv, pc, pu, focus))
     apps = []
     for i in range(rng.randint(1, 3)):
         a = {"name": "app%d" % i, "sources": ["main%d.c" % i]}
@@ -126,15 +174,50 @@ def gen_project(rng, size="small", features=("resolver", "env", "gen"), focus=No
         if pick(rng, 0.12): a["blocklist"] = rng.sample(ctx_all_names, rng.randint(1, 2))
         env = {}
         for scope in ("local", "export", "global"):
-            e = rand_env(rng, 0.25)
+            e = rand_env(rng, penv, pool=VARS)
             if e: env[scope] = e
         if env: a["env"] = env
+        if pick(rng, 0.08): a["tasks"] = {rng.choice(["t1", "t4"]): rand_task(rng, names)}
         apps.append(a)
-    doc = {"contexts": contexts, "builders": builders, "modules": modules, "apps": apps}
+    doc = {"contexts": contexts, "builders": builders}
+    files = {"laze-project.yml": [doc]}
+    if not layout:
+        doc["modules"] = modules; doc["apps"] = apps
+        if pick(rng, 0.25):
+            doc["defaults"] = {}
+            if pick(rng, 0.8): doc["defaults"]["module"] = gen_defaults(rng, names, penv)
+            if pick(rng, 0.5): doc["defaults"]["app"] = gen_defaults(rng, names, penv)
+    else:
+        buckets = {"root": ([], []), "doc2": ([], []), "sub": ([], []), "deep": ([], []), "inc": ([], [])}
+        keys = list(buckets)
+        for m in modules: buckets[rng.choice(keys)][0].append(m)
+        for a in apps: buckets[rng.choice(keys)][1].append(a)
+        def fill(d, b):
+            if buckets[b][0]: d["modules"] = buckets[b][0]
+            if buckets[b][1]: d["apps"] = buckets[b][1]
+            if pick(rng, 0.4):
+                d["defaults"] = {}
+                if pick(rng, 0.8): d["defaults"]["module"] = gen_defaults(rng, names, penv)
+                if pick(rng, 0.5): d["defaults"]["app"] = gen_defaults(rng, names, penv)
+            return d
+        fill(doc, "root")
+        doc["subdirs"] = ["sub"]
+        if buckets["inc"][0] or buckets["inc"][1]:
+            doc["includes"] = ["extra.yml"]
+            files["extra.yml"] = [fill({}, "inc")]
+        if buckets["doc2"][0] or buckets["doc2"][1]:
+            files["laze-project.yml"].append(fill({}, "doc2"))
+        sub = fill({}, "sub")
+        if buckets["deep"][0] or buckets["deep"][1] or pick(rng, 0.3):
+            sub["subdirs"] = ["deep"]
+            files["sub/deep/laze.yml"] = [fill({}, "deep")]
+        files["sub/laze.yml"] = [sub]
+        if pick(rng, 0.15) and not buckets["sub"][1]:
+            sub["apps"] = None        # `apps:` with a null value: one app named after the directory
     cli = {}
     if pick(rng, 0.3): cli["select"] = [("?" if pick(rng, 0.3) else "") + rng.choice(names) for _ in range(rng.randint(1, 2))]
     if pick(rng, 0.15): cli["disable"] = [rng.choice(names) for _ in range(rng.randint(1, 2))]
-    if pick(rng, 0.25): cli["define"] = [rng.choice(VARS[:4]) + rng.choice(["=", "+="]) + rng.choice(["d1", "d 2", "${X}", ""]) for _ in range(rng.randint(1, 3))]
+    if pick(rng, 0.25): cli["define"] = [rng.choice(VARS[:3]) + rng.choice(["=", "+="]) + rng.choice(["d1", "d 2", "${X}", ""]) for _ in range(rng.randint(1, 3))]
     if pick(rng, 0.15): cli["builders"] = rng.sample([b["name"] for b in builders], rng.randint(1, len(builders)))
     if pick(rng, 0.15): cli["apps"] = rng.sample([a["name"] for a in apps], rng.randint(1, len(apps)))
-    return {"laze-project.yml": [doc]}, cli
+    return files, cli
